@@ -433,6 +433,20 @@ pub fn run(ctx: Ctx) -> i32 {
     report.assumption("two Err outcomes are not compared by the over-read detector: the property restricts only success");
     let zoo: &'static Zoo = Box::leak(Box::new(load_zoo()));
     let replay = |c: &J| -> Result<(), Fail> { check_case(zoo, &Case::from_json(c)).map(|_| ()) };
+    // a raw libFuzzer input (timeout / out-of-memory artifacts have no decoded case)
+    if let Some(path) = &ctx.replay {
+        let j = read_replay(path);
+        if let Some(h) = j["case"]["fuzz_input"].as_str() {
+            report.eval(1);
+            match fuzz_one(zoo, &unhex(h)) {
+                None => println!("replay: case passes"),
+                Some((key, msg, case)) => {
+                    report.fail(&key, &msg, case);
+                }
+            }
+            return report.finish();
+        }
+    }
     if let Some(path) = &ctx.replay {
         start_watchdog();
         let j = read_replay(path);
@@ -609,4 +623,63 @@ fn handle_dead_workers(report: &Report, bad: &[WorkerOutcome]) {
             None => dead_workers_are_infra(report, std::slice::from_ref(b)),
         }
     }
+}
+
+
+/// fuzz entry (engine/fuzz decoders). byte 0 selects the reader, bytes 1-2 the zoo type:
+/// 0 = UPER (byte 3: number of unused trailing bits), 1 = protobuf, 2 = DER primitive (byte 1: which);
+/// the rest is the input of the reader. The seed corpus (`fuzz_corpus`) holds valid encodings.
+pub fn fuzz_one(zoo: &Zoo, data: &[u8]) -> Option<(String, String, J)> {
+    if data.len() < 4 {
+        return None;
+    }
+    let n = zoo.entries.len();
+    let ei = ((u16::from_le_bytes([data[1], data[2]]) as usize) * n) >> 16;
+    let e = &zoo.entries[ei];
+    let rest = &data[4..];
+    let case = match data[0] % 3 {
+        0 => {
+            let trim = (data[3] & 7) as usize;
+            Case { target: Target::Uper, module: e.module.name.clone(), ty: e.def.name.clone(), bytes: rest.to_vec(), bit_len: (rest.len() * 8).saturating_sub(trim), origin: "fuzz".into() }
+        }
+        1 => Case { target: Target::Proto, module: e.module.name.clone(), ty: e.def.name.clone(), bytes: rest.to_vec(), bit_len: rest.len() * 8, origin: "fuzz".into() },
+        _ => Case { target: Target::Der(data[1] % 9), module: String::new(), ty: String::new(), bytes: rest.to_vec(), bit_len: rest.len() * 8, origin: "fuzz".into() },
+    };
+    check_case(zoo, &case).err().map(|(k, m)| (k, m, case.to_json()))
+}
+
+/// seed corpus for the decoders target: valid UPER and protobuf encodings of generated values of
+/// every `step`-th zoo type, in the input format of `fuzz_one`
+pub fn fuzz_corpus(zoo: &Zoo, dir: &std::path::Path, seed: u64, step: usize) -> usize {
+    let cfg = ValueCfg { big_weight: 0, max_big: 60, max_big_elems: 60, conformance: false, out_of_root: true, cap_open_types: true, hard_limit: None };
+    let n = zoo.entries.len();
+    let mut written = 0;
+    for ei in (0..n).step_by(step.max(1)) {
+        let e = &zoo.entries[ei];
+        // smallest selector that maps to ei
+        let sel = ((ei << 16) + n - 1) / n;
+        if sel > u16::MAX as usize || ((sel * n) >> 16) != ei {
+            continue;
+        }
+        let sel = (sel as u16).to_le_bytes();
+        for k in 0..2u64 {
+            let Some(v) = from_fuzz_bytes(&gen::def_value_strategy(&e.module, &e.def, cfg), &(seed, ei as u64, k).0.to_le_bytes().iter().chain(&(ei as u64 * 2 + k).to_le_bytes()).copied().collect::<Vec<u8>>()) else { continue };
+            let Ok(built) = e.build(&v) else { continue };
+            if let Enc::Ok { bytes, bit_len } = encode(e, &*built) {
+                if bytes.len() <= 400 {
+                    let mut f = vec![0u8, sel[0], sel[1], (bytes.len() * 8 - bit_len) as u8];
+                    f.extend_from_slice(&bytes);
+                    written += std::fs::write(dir.join(format!("u-{ei}-{k}")), f).is_ok() as usize;
+                }
+            }
+            if let Ok(Ok(bytes)) = catch(|| e.entry.ty.proto_write(&*built)) {
+                if bytes.len() <= 400 {
+                    let mut f = vec![1u8, sel[0], sel[1], 0];
+                    f.extend_from_slice(&bytes);
+                    written += std::fs::write(dir.join(format!("p-{ei}-{k}")), f).is_ok() as usize;
+                }
+            }
+        }
+    }
+    written
 }
